@@ -232,7 +232,7 @@ fn positional() -> Vec<Vec<u8>> {
             }
         }
     }
-    for m in ["    1:2:void z():0 -> m\n", "    1:2:void z():0:0 -> m\n", "    1:2:void z():0:5 -> m\n", "    0:65535:void z():0:0 -> m\n", "    1:1:void z():0:0 -> m\n    void y() -> n\n", "    void y() -> n\n    3:4:void z():0 -> m\n"] {
+    for m in ["    4294967296:4294967297:void z():1:2 -> m\n", "    1:4294967296:void z() -> m\n", "    18446744073709551615:18446744073709551615:void z():7 -> m\n", "    1:2:void z():0 -> m\n", "    1:2:void z():0:0 -> m\n", "    1:2:void z():0:5 -> m\n", "    0:65535:void z():0:0 -> m\n", "    1:1:void z():0:0 -> m\n    void y() -> n\n", "    void y() -> n\n    3:4:void z():0 -> m\n"] {
         v.push(format!("p.A -> a:\n{}", m).into_bytes());
         v.push(format!("p.A -> a:\n{}p.B -> b:\n    void q() -> q\n", m).into_bytes());
     }
